@@ -49,7 +49,7 @@
 (*   has, so those of earlier versions of the text linger.                                   *)
 EXTENDS Naturals, Sequences, FiniteSets, TLC
 
-CONSTANTS Urls, Texts, Cfgs, MaxMsgs, MaxInFlight, VersionGuard, RefreshFromMemory, ConfigRebuilds, ForgetIdentRecord, IdentsAccumulate, RebuildOnlyIfChanged
+CONSTANTS Urls, Texts, Cfgs, MaxMsgs, MaxInFlight, VersionGuard, RefreshFromMemory, ConfigRebuilds, ForgetIdentRecord, IdentsAccumulate, RebuildOnlyIfChanged, FirstOfBatch
 
 VARIABLES clientText,   \* newest text the client sent per url ("none": not open)
           docText,      \* server's document state per url ("none": no entry); with the version it came from
@@ -91,6 +91,11 @@ SendOpen(u, t) == clientText[u] = "none" /\ Start([kind |-> "open", c |-> C0, ch
                   /\ clientText' = [clientText EXCEPT ![u] = t] /\ UNCHANGED <<docText, published, disk, cfgvars>>
 SendChange(u, t) == clientText[u] # "none" /\ Start([kind |-> "change", c |-> C0, changed |-> FALSE, todo |-> <<>>, u |-> u, t |-> t, ver |-> sent + 1, pc |-> "cfg"])
                     /\ clientText' = [clientText EXCEPT ![u] = t] /\ UNCHANGED <<docText, published, disk, cfgvars>>
+\* one didChange notification may carry several content changes; with full-document sync each is a whole text and
+\* the last one is the document (FirstOfBatch = TRUE: a seeded deviation that takes the first)
+SendChangeBatch(u, t1, t2) == clientText[u] # "none" /\ t1 # t2
+                    /\ Start([kind |-> "change", c |-> C0, changed |-> FALSE, todo |-> <<>>, u |-> u, t |-> IF FirstOfBatch THEN t1 ELSE t2, ver |-> sent + 1, pc |-> "cfg"])
+                    /\ clientText' = [clientText EXCEPT ![u] = t2] /\ UNCHANGED <<docText, published, disk, cfgvars>>
 \* the editor saves its buffer, then notifies
 SendSave(u) == clientText[u] # "none" /\ Start([kind |-> "save", c |-> C0, changed |-> FALSE, todo |-> <<>>, u |-> u, t |-> "disk", ver |-> sent + 1, pc |-> "read"])
                /\ disk' = [disk EXCEPT ![u] = clientText[u]] /\ UNCHANGED <<clientText, docText, published, cfgvars>>
@@ -183,6 +188,7 @@ StepEach(i) ==
   /\ UNCHANGED <<clientText, docText, disk, sent, overlapped, clientCfg, announced, docCfg>>
 
 LNext == \/ \E u \in Urls, t \in Texts : SendOpen(u, t) \/ SendChange(u, t)
+         \/ \E u \in Urls, t1, t2 \in Texts : SendChangeBatch(u, t1, t2)
          \/ \E u \in Urls : SendClose(u) \/ SendSave(u) \/ SendRefresh(u)
          \/ \E c \in Cfgs : SendConfig(c) \/ ChangeSilently(c)
          \/ \E i \in DOMAIN hs : StepRead(i) \/ StepCfg(i) \/ StepLoad(i) \/ StepSet(i) \/ StepPub(i) \/ StepClose(i)
